@@ -506,6 +506,7 @@ pixman_composite_trapezoids (pixman_op_t		op,
 	(src->common.flags & FAST_PATH_IS_OPAQUE)		&&
 	(mask_format == dst->common.extended_format_code)	&&
 	!(dst->common.alpha_map)				&&
+	(dst->bits.dither == PIXMAN_DITHER_NONE)		&&
 	!(dst->common.have_clip_region))
     {
 	for (i = 0; i < n_traps; ++i)
